@@ -168,6 +168,7 @@ def write_evidence(prop, tier, seed, mod, obs, results, new_viol, known_hits, wa
         functions_encoded=sorted(funcs, key=lambda k: -funcs[k])[:80],
         aten_ops_encoded=sorted(ops),
         path_conditions=dict(total=sum(r.get("n_pc", 0) for r in results), concretisations=sum(r.get("n_concretize", 0) for r in results), sample=[p for r in results for p in r.get("pc", [])[:2]][:10]),
+        paths={k: sum((r.get("paths") or {}).get(k, 0) for r in results) for k in ("explored", "infeasible", "rejected", "unexplored", "flips_unknown")},
         grid_sampler=dict(collapsed=sum((r.get("gs") or {}).get("collapsed", 0) for r in results), witness_cell=sum((r.get("gs") or {}).get("witness_cell", 0) for r in results)),
         consistency_checked_elements=sum(r.get("checked_elements", 0) for r in results),
         axioms_used=axioms,
